@@ -519,8 +519,26 @@ fn supervise(args: &[String]) -> i32 {
             return 2;
         }
     };
-    let crumb_text = std::fs::read_to_string(&crumb).ok();
-    let _ = std::fs::remove_file(&crumb);
+    // the breadcrumbs of every thread that panicked (crumb.<pid>.<thread>): prefer one from the server's code
+    let mut crumb_text: Option<String> = None;
+    if let (Some(parent), Some(stem)) = (crumb.parent(), crumb.file_name().and_then(|n| n.to_str())) {
+        if let Ok(rd) = std::fs::read_dir(parent) {
+            for e in rd.flatten() {
+                let name = e.file_name().to_string_lossy().to_string();
+                if name.starts_with(stem) {
+                    if !name.ends_with(".tmp") {
+                        if let Ok(t) = std::fs::read_to_string(e.path()) {
+                            let in_server = serde_json::from_str::<Value>(&t).ok().and_then(|v| v["panic"].as_str().map(|p| p.rsplit(" @ ").next().unwrap_or("").contains("memcrs/src"))).unwrap_or(false);
+                            if in_server || crumb_text.is_none() {
+                                crumb_text = Some(t);
+                            }
+                        }
+                    }
+                    let _ = std::fs::remove_file(e.path());
+                }
+            }
+        }
+    }
     if let Some(code) = status.code() {
         return code;
     }
